@@ -17,8 +17,9 @@ func reformatDescription(input string, maxWidth int) []string {
 				linesOut = append(linesOut, pend)
 				pend = ""
 			}
-			// prevent duplicate newlines
-			if !lastWasEmpty {
+			// prevent duplicate newlines, and drop leading ones the same
+			// way an empty first line is dropped
+			if !lastWasEmpty && len(linesOut) > 0 {
 				linesOut = append(linesOut, "")
 			}
 			lastWasEmpty = true
@@ -26,7 +27,10 @@ func reformatDescription(input string, maxWidth int) []string {
 		}
 		lastWasEmpty = false
 
-		words := strings.Split(line, " ")
+		// split on any run of whitespace: empty "words" from repeated spaces
+		// and words made of tabs would make the result depend on where the
+		// previous formatting pass happened to break the lines.
+		words := strings.Fields(line)
 		for _, word := range words {
 			if pend == "" {
 				pend = word
